@@ -35,8 +35,12 @@ where
     // (|scale| = 1: slightly above one, |scale| = 2: slightly below) and have to be normalised like any other
     // scale = -3: every weight and their total are SUBNORMAL numbers (exact multiples of a power of two, so that
     // nothing is lost building them): still ordinary non-negative weights
+    // scale = -4: every weight is a finite number but their SUM overflows the element type (un-normalised softmax
+    // weights exp(logit) are like that for logits beyond 88 in f32)
     let scale = if scale == -3.0 {
         if is32 { 2f64.powi(-140) } else { 2f64.powi(-1060) }
+    } else if scale == -4.0 {
+        if is32 { 2f64.powi(126) } else { 2f64.powi(1022) }
     } else if scale < 0.0 {
         let delta = if is32 { 2e-4 } else { 3e-9 };
         (if scale == -1.0 { 1.0 + delta } else { 1.0 - delta }) / total
@@ -125,7 +129,7 @@ pub fn replay(args: &[String]) {
     let cases = read_ndjson(&args[0]);
     let mut acc = Acc { evals: 0, strict: 0, exact: 0, bad: vec![] };
     for c in &cases {
-        for scale in [1.0, 0.37, 1000.0, -1.0, -2.0, -3.0] {
+        for scale in [1.0, 0.37, 1000.0, -1.0, -2.0, -3.0, -4.0] {
             one::<f64>(c, scale, &mut acc);
             one::<f32>(c, scale, &mut acc);
         }
